@@ -10,8 +10,8 @@ package main
 import (
 	"bytes"
 	"crypto"
-	_ "crypto/sha256"
 	"crypto/rand"
+	_ "crypto/sha256"
 	"encoding/json"
 	"fmt"
 	"os"
@@ -202,8 +202,11 @@ func kemFam(s kem.Scheme) famDef {
 		es := r.Bytes(s.EncapsulationSeedSize())
 		ct, _, _ := s.EncapsulateDeterministically(pk0, es)
 		return &shared{ops: map[string]func(uint64) []byte{
-			"decap":   func(uint64) []byte { ss, _ := s.Decapsulate(sk, ct); return ss },
-			"encap":   func(uint64) []byte { c, ss, _ := s.EncapsulateDeterministically(pk, es); return append(c[:16:16], ss...) },
+			"decap": func(uint64) []byte { ss, _ := s.Decapsulate(sk, ct); return ss },
+			"encap": func(uint64) []byte {
+				c, ss, _ := s.EncapsulateDeterministically(pk, es)
+				return append(c[:16:16], ss...)
+			},
 			"pub":     func(uint64) []byte { b, _ := sk.Public().MarshalBinary(); return b[:32] },
 			"marshal": func(uint64) []byte { b, _ := pk.MarshalBinary(); return b[:32] },
 		}}
@@ -525,7 +528,7 @@ func main() {
 	core.Main(&core.Property{
 		ID:    "C11",
 		Level: "exploration",
-		Rule: "schedules: per family (BLS keys in both groups, HPKE X25519/X448/P-256/P-384/hybrid/X-Wing private keys, OPRF keys, threshold-RSA key shares with a lazily filled cache, KEM and signature keys restored from bytes, group constants with a shared expander) 2..4 caller tasks run 1..3 read-only calls each on ONE shared object set under a seeded scheduler with 0..3 planned pre-emptions (uniform over the task's statements, right after entry, right after its k-th shared write); directed: pre-emption of the first user right after each of its first shared writes / statements; oracle: every call returns what it returns when its task runs alone on equal fresh objects, and (race build) ThreadSanitizer reports nothing. non-trivial = at least one pre-emption fired; distinct = distinct (family, op kinds) trace",
+		Rule:  "schedules: per family (BLS keys in both groups, HPKE X25519/X448/P-256/P-384/hybrid/X-Wing private keys, OPRF keys, threshold-RSA key shares with a lazily filled cache, KEM and signature keys restored from bytes, group constants with a shared expander) 2..4 caller tasks run 1..3 read-only calls each on ONE shared object set under a seeded scheduler with 0..3 planned pre-emptions (uniform over the task's statements, right after entry, right after its k-th shared write); directed: pre-emption of the first user right after each of its first shared writes / statements; oracle: every call returns what it returns when its task runs alone on equal fresh objects, and (race build) ThreadSanitizer reports nothing. non-trivial = at least one pre-emption fired; distinct = distinct (family, op kinds) trace",
 		Assumptions: []string{
 			"only operations whose contract is read-only are run concurrently; two tasks never mutate the same receiver",
 			"the instrumented copy differs from the library only by calls spliced in front of statements (yieldgen); library-internal goroutines (tss/rsa parallel blinding) are not scheduled and are not used by the task programs",
@@ -534,7 +537,7 @@ func main() {
 		Components: map[string]string{
 			"all circl packages (instrumented copies through go build -overlay)": "real",
 			"goroutine scheduling of the caller tasks":                           "stub: seeded scheduler (verifsimrt), race-detector-invisible hand-off",
-			"expected results":                                                   "model: the same task alone on equal fresh objects",
+			"expected results": "model: the same task alone on equal fresh objects",
 		},
 		ProbeNames:  []string{"preempt-right-after-shared-write"},
 		Directed:    directed,
